@@ -337,6 +337,9 @@ def execute(case, L, *, sync=False, flav=None, susp=0, fault_kind="exc", cancel_
             rec.first_item = items_[:1]
         if tool == "await_each" or (tool == "any_iter" and par["aw"]):
             items_ = [Aw(rec, x) for x in items_]
+        if par.get("alias") and i > 1:      # the very same iterator object at every position
+            S.append(S[0])
+            continue
         obj, h = make_source(fl, rec, i, items_)
         if fl == "list":
             list_snap[i] = list(obj)
